@@ -91,83 +91,87 @@ theorem fold16_spec (s : Nat) (hs : s < 4294967296) :
     rw [e3]
     omega
 
-theorem sumWords_mod (b : List Nat) (s : Nat) (hs : s < 4294967296) :
-    sumWords s b = (s + exactSum b) % 4294967296 := by
-  induction b using exactSum.induct generalizing s with
-  | case1 a b rest ih =>
-    simp only [sumWords, exactSum]
-    rw [ih _ (Nat.mod_lt _ (by decide))]
+theorem addCarry_spec (s w : Nat) (hs : s < 4294967296) (hw : w < 65536) :
+    addCarry s w < 4294967296 ∧ addCarry s w % 65535 = (s + w) % 65535 ∧ (addCarry s w = 0 ↔ s + w = 0) := by
+  unfold addCarry
+  simp only
+  by_cases hc : s + w < 4294967296
+  · have e : (s + w) % 4294967296 = s + w := Nat.mod_eq_of_lt hc
+    rw [e, if_neg (by omega)]
     omega
-  | case2 a => simp [sumWords, exactSum]
-  | case3 => simp [sumWords, exactSum]; omega
+  · have e : (s + w) % 4294967296 = s + w - 4294967296 := by omega
+    rw [e, if_pos (by omega)]
+    have e2 : (s + w - 4294967296 + 1) % 4294967296 = s + w - 4294967296 + 1 := by omega
+    rw [e2]
+    omega
 
+/-- The accumulator after the loop: congruent to the exact word sum modulo 0xffff and zero only when the
+sum is zero — for EVERY length (the end-around carry makes the 32-bit wrap-around harmless). -/
+theorem sumWords_spec (b : List Nat) (hwf : BytesWF b) :
+    ∀ s, s < 4294967296 →
+      sumWords s b < 4294967296 ∧ sumWords s b % 65535 = (s + exactSum b) % 65535 ∧
+      (sumWords s b = 0 ↔ s + exactSum b = 0) := by
+  induction b using exactSum.induct with
+  | case1 a b rest ih =>
+    intro s hs
+    have ha : a < 256 := hwf a (by simp)
+    have hb : b < 256 := hwf b (by simp)
+    obtain ⟨c1, c2, c3⟩ := addCarry_spec s (b * 256 + a) hs (by omega)
+    obtain ⟨r1, r2, r3⟩ := ih (fun x hx => hwf x (by simp [hx])) _ c1
+    simp only [sumWords, exactSum]
+    refine ⟨r1, ?_, ?_⟩
+    · rw [r2]; omega
+    · rw [r3]; omega
+  | case2 a =>
+    intro s hs
+    have ha : a < 256 := hwf a (by simp)
+    simp only [sumWords, exactSum]
+    exact addCarry_spec s a hs (by omega)
+  | case3 =>
+    intro s hs
+    simp only [sumWords, exactSum]
+    omega
+
+/-- `checksum b` is the complement of a 16-bit value congruent to the exact word sum modulo 0xffff, zero
+only when the sum is zero. -/
+theorem checksum_spec (b : List Nat) (hwf : BytesWF b) :
+    ∃ f, checksum b = 65535 - f ∧ f ≤ 65535 ∧ f % 65535 = exactSum b % 65535 ∧ (f = 0 ↔ exactSum b = 0) := by
+  obtain ⟨r1, r2, r3⟩ := sumWords_spec b hwf 0 (by decide)
+  obtain ⟨f1, f2, f3⟩ := fold16_spec _ r1
+  refine ⟨fold16 (sumWords 0 b), rfl, f1, ?_, ?_⟩
+  · rw [f2, r2, Nat.zero_add]
+  · rw [f3, r3, Nat.zero_add]
+
+/-- **RFC 1071, every length.** For every byte list with a zero checksum field at an even offset,
+inserting `checksum` (low byte first, as the code stores it) yields data whose one's-complement word sum
+is 0xffff. (Before the repair of `checksum` — end-around carry in the loop — this needed
+`length ≤ 131076`, beyond which the 32-bit accumulator wrapped.) -/
 theorem checksum_rfc1071 (pre post : List Nat) (hpre : pre.length % 2 = 0)
-    (hwf : BytesWF (pre ++ 0 :: 0 :: post)) (hlen : (pre ++ 0 :: 0 :: post).length ≤ 131076) :
+    (hwf : BytesWF (pre ++ 0 :: 0 :: post)) :
     Valid1071 (xorCsumAt (pre ++ 0 :: 0 :: post) pre.length (checksum (pre ++ 0 :: 0 :: post))) := by
   rw [xorCsumAt_zero]
   have hS : exactSum (pre ++ 0 :: 0 :: post) = exactSum pre + exactSum post := by
     rw [exactSum_append _ _ hpre]; simp [exactSum]
-  have hp := exactSum_le pre (fun x hx => hwf x (by simp [hx]))
-  have hq := exactSum_le post (fun x hx => hwf x (by simp [hx]))
-  simp only [List.length_append, List.length_cons] at hlen
-  have hbound : exactSum pre + exactSum post < 4294967296 := by omega
-  unfold checksum
-  rw [sumWords_mod _ _ (by decide), Nat.zero_add, hS, Nat.mod_eq_of_lt hbound]
-  obtain ⟨f1, f2, f3⟩ := fold16_spec _ hbound
-  generalize fold16 (exactSum pre + exactSum post) = f at *
+  obtain ⟨f, hc, f1, f2, f3⟩ := checksum_spec _ hwf
+  rw [hc, hS] at *
   unfold Valid1071
   rw [exactSum_append _ _ hpre]
   simp only [exactSum]
-  have hc : (65535 - f) / 256 % 256 * 256 + (65535 - f) % 256 = 65535 - f := by omega
-  rw [hc]
+  have hcw : (65535 - f) / 256 % 256 * 256 + (65535 - f) % 256 = 65535 - f := by omega
+  rw [hcw]
   omega
 
 theorem xorCsumAt_hdr (a b : Nat) (post : List Nat) (s : Nat) :
     xorCsumAt (a :: b :: 0 :: 0 :: post) 2 s = a :: b :: (s % 256) :: (s / 256 % 256) :: post :=
   xorCsumAt_zero [a, b] post s
 
-/-! #### the accumulator bound is tight: a longer body yields a wrong checksum -/
-
-theorem exactSum_replicate_ff (k : Nat) : exactSum (List.replicate (2 * k) 255) = k * 65535 := by
-  induction k with
-  | zero => simp [exactSum]
-  | succ k ih =>
-    have : 2 * (k + 1) = (2 * k + 1) + 1 := by omega
-    rw [this, List.replicate_succ, List.replicate_succ]
-    simp only [exactSum]
-    rw [ih]; omega
-
-theorem checksum_eq (b : List Nat) : checksum b = 65535 - fold16 (exactSum b % 4294967296) := by
-  unfold checksum
-  rw [sumWords_mod _ _ (by decide), Nat.zero_add]
+/-! #### the former counterexample (131078 bytes) is now an ordinary valid message -/
 
 /-- ICMPv4 echo request with ID = Seq = 0xffff and data `d`, checksum field zero. -/
 def echoFF (d : List Nat) : List Nat := 8 :: 0 :: 0 :: 0 :: 255 :: 255 :: 255 :: 255 :: d
 
-/-- Generic form of the witness: any data whose word sum is 65535·65535 (e.g. 131070 bytes 0xff). -/
-theorem wrap_generic (d : List Nat) (hsum : exactSum d = 65535 * 65535) :
-    checksum (echoFF d) = 65528 ∧ ¬ Valid1071 (xorCsumAt (echoFF d) 2 (checksum (echoFF d))) := by
-  have hS : exactSum (echoFF d) = 4294967296 + 7 := by
-    simp only [echoFF, exactSum, hsum]
-  have hc : checksum (echoFF d) = 65528 := by
-    rw [checksum_eq, hS]
-    have h : (4294967296 + 7) % 4294967296 = 7 := by omega
-    rw [h]
-    have hf := fold16_spec 7 (by omega)
-    generalize fold16 7 = f at *
-    omega
-  refine ⟨hc, ?_⟩
-  rw [hc]
-  unfold echoFF
-  rw [xorCsumAt_hdr]
-  unfold Valid1071
-  simp only [exactSum, hsum]
-  omega
-
 /-- The witness data: 131070 bytes 0xff. -/
 def wrapData : List Nat := List.replicate (2 * 65535) 255
-
-theorem wrapData_sum : exactSum wrapData = 65535 * 65535 := exactSum_replicate_ff 65535
 
 theorem wrapData_wf : BytesWF wrapData := by
   intro b hb
@@ -175,27 +179,20 @@ theorem wrapData_wf : BytesWF wrapData := by
   rw [List.mem_replicate] at hb'
   omega
 
-theorem wrapData_length : wrapData.length = 131070 := by
-  show (List.replicate (2 * 65535) 255).length = 131070
-  rw [List.length_replicate]
-
-/-- ICMPv4 echo request, ID = Seq = 0xffff, 131070 data bytes 0xff: 131078 bytes — 2 bytes past the
-bound of `checksum_rfc1071`. -/
+/-- ICMPv4 echo request, ID = Seq = 0xffff, 131070 data bytes 0xff: 131078 bytes. With the former
+`uint32` accumulator without carry, `checksum` returned 0xfff8 and the message did not verify. -/
 def wrapWitness : List Nat := echoFF wrapData
 
-/-- On the witness the 32-bit accumulator wraps: `checksum` returns 0xfff8 and the message with that
-checksum inserted is NOT valid (its word sum is ≡ 1 mod 0xffff). -/
-theorem checksum_wrap_witness :
-    wrapWitness.length = 131078 ∧ BytesWF wrapWitness ∧ checksum wrapWitness = 65528 ∧
-    ¬ Valid1071 (xorCsumAt wrapWitness 2 (checksum wrapWitness)) := by
-  refine ⟨?_, ?_, (wrap_generic wrapData wrapData_sum).1, (wrap_generic wrapData wrapData_sum).2⟩
-  · show (8 :: 0 :: 0 :: 0 :: 255 :: 255 :: 255 :: 255 :: wrapData).length = 131078
-    simp only [List.length_cons, wrapData_length]
-  · intro b hb
-    have hb' : b ∈ 8 :: 0 :: 0 :: 0 :: 255 :: 255 :: 255 :: 255 :: wrapData := hb
-    simp only [List.mem_cons] at hb'
-    rcases hb' with h | h | h | h | h | h | h | h | h
-    all_goals first | omega | exact wrapData_wf b h
+theorem wrapWitness_wf : BytesWF wrapWitness := by
+  intro b hb
+  have hb' : b ∈ 8 :: 0 :: 0 :: 0 :: 255 :: 255 :: 255 :: 255 :: wrapData := hb
+  simp only [List.mem_cons] at hb'
+  rcases hb' with h | h | h | h | h | h | h | h | h
+  all_goals first | omega | exact wrapData_wf b h
+
+/-- The old witness now satisfies the statement. -/
+example : Valid1071 (xorCsumAt wrapWitness 2 (checksum wrapWitness)) :=
+  checksum_rfc1071 [8, 0] (255 :: 255 :: 255 :: 255 :: wrapData) (by rfl) wrapWitness_wf
 
 /-! ### Part B: shape of `Message.Marshal` -/
 
@@ -226,11 +223,11 @@ theorem marshal_v6_nopsh (m : Msg) (hp : m.proto = protocolIPv6ICMP) (mb : List 
   unfold Msg.marshal
   simp [hb, hp]
 
-/-- **ICMPv4 output carries a valid RFC 1071 checksum** — for every message the model can marshal
-whose total length stays within the accumulator bound (131076 bytes). -/
+/-- **ICMPv4 output always carries a valid RFC 1071 checksum** — every message the model can marshal,
+every body size. -/
 theorem marshal_v4_checksum_valid (m : Msg) (hp : m.proto = protocolICMP) (ht : m.typ < 256)
     (mb wire : List Nat) (hb : bodyBytes m = some mb) (hwf : BytesWF mb)
-    (hw : m.marshal none = some wire) (hlen : wire.length ≤ 131076) : Valid1071 wire := by
+    (hw : m.marshal none = some wire) : Valid1071 wire := by
   have hu : u8 m.code < 256 := by unfold u8; omega
   have hpre : BytesWF ([m.typ % 256, u8 m.code] ++ 0 :: 0 :: mb) := by
     intro b hbm
@@ -250,57 +247,21 @@ theorem marshal_v4_checksum_valid (m : Msg) (hp : m.proto = protocolICMP) (ht : 
   rw [hsh] at hw
   injection hw with hw
   subst hw
-  have hl : ([m.typ % 256, u8 m.code] ++ 0 :: 0 :: mb).length ≤ 131076 := by
-    simpa [xorCsumAt] using hlen
-  exact checksum_rfc1071 [m.typ % 256, u8 m.code] mb (by simp) hpre hl
+  exact checksum_rfc1071 [m.typ % 256, u8 m.code] mb (by simp) hpre
 
 /-- The full statement "ICMPv4 output always carries a valid checksum" over ALL body sizes. -/
 def ChecksumStatement : Prop :=
   ∀ (m : Msg) (mb wire : List Nat), m.proto = protocolICMP → m.typ < 256 → bodyBytes m = some mb →
     BytesWF mb → m.marshal none = some wire → Valid1071 wire
 
+/-- **It holds** (it was false beyond 131076 bytes before the repair of `checksum`). -/
+theorem checksum_holds : ChecksumStatement :=
+  fun m mb wire hp ht hb hwf hw => marshal_v4_checksum_valid m hp ht mb wire hb hwf hw
+
 theorem echo_bodyBytes (proto typ : Nat) (code : Int) (ck : Nat) (id seq : Int) (d : List Nat) :
     bodyBytes ⟨proto, typ, code, ck, .echo id seq d⟩ = some (be16 id ++ be16 seq ++ d) := by
   unfold bodyBytes
   simp [Body.len, Body.marshal]
-
-/-- The witness as a message: echo request, ID = Seq = 65535, data `d`. -/
-def echoFFMsg (d : List Nat) : Msg :=
-  { proto := protocolICMP, typ := v4Echo, code := 0, cksum := 0, body := .echo 65535 65535 d }
-
-theorem echoFFMsg_body (d : List Nat) : bodyBytes (echoFFMsg d) = some (255 :: 255 :: 255 :: 255 :: d) := by
-  unfold echoFFMsg
-  rw [echo_bodyBytes]
-  have h : be16 65535 = [255, 255] := by decide
-  rw [h]
-  rfl
-
-theorem echoFFMsg_marshal (d : List Nat) :
-    (echoFFMsg d).marshal none = some (xorCsumAt (echoFF d) 2 (checksum (echoFF d))) := by
-  rw [marshal_v4 (echoFFMsg d) rfl _ (echoFFMsg_body d)]
-  have e2 : (echoFFMsg d).typ % 256 = 8 ∧ u8 (echoFFMsg d).code = 0 := by
-    constructor <;> rfl
-  rw [e2.1, e2.2]
-  unfold echoFF
-  rw [xorCsumAt_hdr]
-  rfl
-
-/-- **The statement is false beyond the accumulator bound** (literal reading: all body sizes). -/
-theorem checksum_full_false : ¬ ChecksumStatement := by
-  intro h
-  have hwf : BytesWF (255 :: 255 :: 255 :: 255 :: wrapData) := by
-    intro b hb
-    simp only [List.mem_cons] at hb
-    rcases hb with h | h | h | h | h
-    all_goals first | omega | exact wrapData_wf b h
-  have hv := h (echoFFMsg wrapData) _ _ rfl (by decide) (echoFFMsg_body wrapData) hwf (echoFFMsg_marshal wrapData)
-  exact (wrap_generic wrapData wrapData_sum).2 hv
-
-/-- … and it holds on the excluded region's complement (decidable predicate: `wire.length ≤ 131076`). -/
-theorem checksum_holds_partial :
-    ∀ (m : Msg) (mb wire : List Nat), m.proto = protocolICMP → m.typ < 256 → bodyBytes m = some mb →
-      BytesWF mb → m.marshal none = some wire → wire.length ≤ 131076 → Valid1071 wire :=
-  fun m mb wire hp ht hb hwf hw hlen => marshal_v4_checksum_valid m hp ht mb wire hb hwf hw hlen
 
 /-! ### Part C: round trips of the fixed-layout bodies -/
 
@@ -611,7 +572,7 @@ theorem dstUnreach_noext_roundtrip (proto typ : Nat) (ht : typ < 256) (hk : pars
     simp only [Body.len, Body.marshal, multipartLens_noext, marshalMultipart_noext]
     have hv : validExtensions proto (if proto = protocolICMP then v4DstUnreach else v6DstUnreach) [] = true := by
       rcases hcases with ⟨h1, _⟩ | ⟨h1, _⟩ <;> subst h1 <;> decide
-    simp [hv]
+    simp [hv, lengthAttrOK]
   · unfold parseBody
     rw [hk]
     have hz : zeros 4 ++ data = 0 :: 0 :: 0 :: 0 :: data := rfl
@@ -632,7 +593,7 @@ theorem timeExceeded_noext_roundtrip (proto typ : Nat) (ht : typ < 256) (hk : pa
     simp only [Body.len, Body.marshal, multipartLens_noext, marshalMultipart_noext]
     have hv : validExtensions proto (if proto = protocolICMP then v4TimeExceeded else v6TimeExceeded) [] = true := by
       rcases hcases with ⟨h1, _⟩ | ⟨h1, _⟩ <;> subst h1 <;> decide
-    simp [hv]
+    simp [hv, lengthAttrOK]
   · unfold parseBody
     rw [hk]
     have hz : zeros 4 ++ data = 0 :: 0 :: 0 :: 0 :: data := rfl
@@ -647,7 +608,7 @@ theorem paramProb_v4_noext_roundtrip (typ : Nat) (ht : typ < 256) (hk : parserKi
   apply roundtrip_of protocolICMP typ (Or.inl rfl) ht code hc _ _ (u8 ptr :: 0 :: 0 :: 0 :: data)
   · unfold bodyBytes mkMsg
     simp only [Body.len, Body.marshal, multipartLens_noext, marshalMultipart_noext]
-    simp [validExtensions, zeros]
+    simp [validExtensions, zeros, lengthAttrOK]
   · unfold parseBody
     rw [hk]
     rw [parseMultipart_noext protocolICMP typ (kind_not_xreq _ _ (Or.inr (Or.inr hk))) _ 0 0 0 (by simp) data hamb]
@@ -698,22 +659,21 @@ theorem noext_holds_partial (data : List Nat) (h : legacyAmbiguous data = false)
     RoundTrips protocolICMP v4DstUnreach 0 (.dstUnreach data []) none :=
   dstUnreach_noext_roundtrip _ _ (by decide) (by decide) 0 (by omega) data h
 
-/-- **Length attribute overflow**: with extensions, a padded datagram of 1024 octets needs the length
-attribute 256, which is stored in one octet as 0; the parser then finds no extension structure where
-it looks and returns everything (datagram, extension header, object) as datagram, without extensions. -/
-theorem lengthAttr_witness :
-    ((mkMsg protocolICMP v4TimeExceeded 0 (.timeExceeded (zeros 1021) [.mpls 1 1 []])).marshal none).map
-        (fun w => (w.length, w.getD 5 99)) = some (8 + 1024 + 8, 0) ∧
-    (roundBody (mkMsg protocolICMP v4TimeExceeded 0 (.timeExceeded (zeros 1021) [.mpls 1 1 []]))).map
-        (fun b => match b with | .timeExceeded d es => (d.length, es.length) | _ => (0, 0)) = some (1032, 0) := by
+/-- **Length attribute range check** (repaired): with extensions, a padded datagram of 1024 octets would
+need the length attribute 256, which does not fit its octet; `Marshal` now refuses (before the repair it
+stored 0 and the message parsed back without extensions). -/
+theorem lengthAttr_rejected_witness :
+    (mkMsg protocolICMP v4TimeExceeded 0 (.timeExceeded (zeros 1021) [.mpls 1 1 []])).marshal none = none ∧
+    ((mkMsg protocolICMP v4TimeExceeded 0 (.timeExceeded (zeros 1017) [.mpls 1 1 []])).marshal none).map
+        (fun w => (w.length, w.getD 5 99)) = some (8 + 1020 + 8, 255) := by
   decide +kernel
 
-/-- **ICMPv6 parameter problem drops extensions**: `Marshal` accepts them (no error), sizes the body for
-them, but writes none; the parsed message has no extensions and a zero-padded datagram. -/
-theorem paramprob_v6_exts_dropped :
-    roundBody (mkMsg protocolIPv6ICMP v6ParamProb 0 (.paramProb 7 [1, 2, 3] [.mpls 1 1 [⟨5, 0, true, 9⟩]])) =
-      some (.paramProb 7 ([1, 2, 3] ++ zeros (125 + 4 + 8)) []) := by
-  decide +kernel
+/-- **ICMPv6 parameter problem with extensions is refused** (repaired; RFC 4884 does not extend this
+message — before the repair `Marshal` silently dropped the extensions). -/
+theorem paramprob_v6_exts_rejected (ptr : Int) (data : List Nat) (e : Ext) (es : List Ext) :
+    Body.marshal protocolIPv6ICMP (.paramProb ptr data (e :: es)) = none := by
+  have hne : ¬ (protocolIPv6ICMP = protocolICMP) := by decide
+  simp [Body.marshal, hne]
 
 /-! ### Part E: `ipv4.Header` (Linux field order) -/
 
